@@ -19,6 +19,9 @@
  *   CMP v3|v2|exportfail|reloadfail    expected answer "EQ ok"
  *   FIX <same 0|1> <len1> <len2> <first differing offset>        expected answer "FIX ok"
  *   CRASH <status>                     the child died (sanitizer report / abort); expected answer "CRASH none" never matches
+ *   OBJ ...                            object-level stream, see obj_stream()              expected answer "OBJ ok"
+ *   TB / TE / TO / TR / TJ             tree-level stream, see tree_stream()               expected answer "TREE ok" (on TJ)
+ *   TB / TE / TM <mutation> <status>   mutated documents, see mut_stream()                expected answer "TMUT ok" (on TM)
  */
 #include "topology-xml-nolibxml.c"
 #include "dump.h"
